@@ -37,8 +37,13 @@ func measureOffsetToRefClks(refClkClient client.ReferenceClockClient,
 	timeout time.Duration) (time.Time, time.Duration) {
 	ctx, cancel := context.WithTimeout(context.Background(), timeout)
 	defer cancel()
-	refClkClient.MeasureClockOffsets(ctx, refClks, refClkOffsets)
-	m := measurements.FaultTolerantMidpoint(refClkOffsets)
+	n := refClkClient.MeasureClockOffsets(ctx, refClks, refClkOffsets)
+	if n == 0 {
+		// no clock answered in this round: nothing to correct by (the result
+		// slice still holds the answers of earlier rounds)
+		return time.Time{}, 0
+	}
+	m := measurements.FaultTolerantMidpoint(refClkOffsets[:n])
 	return m.Timestamp, m.Offset
 }
 
